@@ -322,7 +322,14 @@ def rule_helpers(ctx, repo):
     # which match wins: BIP141 takes the LAST output that matches.  A forward scan that returns from inside the loop hands
     # back the first one (a stale commitment earlier in the coinbase then decides); scanning backwards may return at once.
     for lp_ in [n for n in ast.walk(gi.node) if isinstance(n, ast.For)]:
-        fwd = not (isinstance(lp_.iter, ast.Call) and norm(lp_.iter.func) == 'reversed') and 'reversed(' not in norm(lp_.iter) and '::-1' not in norm(lp_.iter)
+        it_ = norm(lp_.iter)
+        known_fwd = it_ in ('enumerate(self.vtx[0].vout)', 'self.vtx[0].vout', 'range(len(self.vtx[0].vout))', 'range(0, len(self.vtx[0].vout))')
+        backward = 'reversed(' in it_ or '::-1' in it_ or (isinstance(lp_.iter, ast.Call) and norm(lp_.iter.func) == 'range' and len(lp_.iter.args) == 3)
+        if not known_fwd and not backward:
+            if 'vout' in it_:
+                r.undecided('commitment-index:last-match', common.site_of(gi, lp_), 'scan order of `%s` is not decided' % it_)
+            continue
+        fwd = known_fwd
         inner_ret = [x for x in ast.walk(lp_) if isinstance(x, ast.Return) and x.value is not None]
         if fwd and inner_ret:
             r.violated('commitment-index:last-match', common.site_of(gi, inner_ret[0]), 'the forward scan over the coinbase outputs returns at the first output that matches (`%s`); '
